@@ -766,6 +766,25 @@ func c02Gen(r *Run) {
 		query(q)
 	}
 
+	// (4a) start prefixes: V(), one or two steps that are NOT hoistable filters, then a filter the
+	// index rewrite would hoist if it (wrongly) looked through what stands between.  as/hasKey
+	// commute with the filter; distinct/limit/fields/out do not.
+	for _, mid := range [][]c01Stmt{
+		{}, {{"as": "a"}}, {{"hasKey": sl("name")}}, {{"distinct": sl("name")}}, {{"distinct": sl("_label")}}, {{"limit": 2}},
+		{{"fields": sl("name")}}, {{"out": sl()}}, {{"as": "a"}, {"distinct": sl("x")}}, {{"skip": 1}}, {{"both": sl()}, {"distinct": sl()}},
+	} {
+		for _, f := range []c01Stmt{
+			{"hasLabel": sl("A")}, {"hasLabel": sl("B", "A")}, {"hasId": sl("v2", "v1")}, c02Has(c02C("_gid", "EQ", "v1")),
+			c02Has(c02C("_label", "WITHIN", sl("A", "B"))),
+		} {
+			q := c02Join([]c01Stmt{{"v": sl()}}, mid, []c01Stmt{f})
+			r.Count("startprefix")
+			opt(q)
+			query(q)
+			query(c02Join(q, []c01Stmt{{"count": ""}}))
+		}
+	}
+
 	// (4b) long traversals on a chain: a mark set in an early step and read ten or more steps later
 	// (step ids are decimal strings in the analysis: "10" sorts before "2"), marks on edges (kvgraph
 	// honours the do-not-load hint for them) and on vertices, read by has / select+hasKey / count.
